@@ -153,3 +153,47 @@ Example rx_bad_fill_empty_span :
              (match reindex_M no_pandas no_contains cast_tbl rx_state (SList []) 9 PNone None [("F", PStr "x y")] 100 with Ret s => Some s | Raise _ => None end)
   = Some [[]; []; []; []].
 Proof. vm_compute. reflexivity. Qed.
+
+(* ---------- a tuple label of the new span against a NumPy-array old span (same root cause as C10's tuple finding):
+   `(2, 3) in np.array([2, 5])` is True (element-wise comparison, any) and the fallback lookup answers position 0, so the
+   NEW period (2, 3) receives the old value of period 2 instead of the fill ---------- *)
+Definition rx_arr_state : cst := mkC (SArr [LInt 2; LInt 5]) 0 [("F", mkSeries DFloat 1 [CF (FNum 3); CF (FNum (-4))])] [] false.
+Theorem reindex_arr_tuple_label_refuted :
+  exists st st' p, wf st /\ ~ In p (span_labels (c_span st))
+    /\ reindex_M no_pandas no_contains cast_tbl st (SList [p]) 9 PNone None [] 100 = Ret st'
+    /\ map (fun kv => s_data (snd kv)) (c_vars st') = [[CF (FNum 3)]]
+    /\ fill_cell cast_tbl 1 DFloat PNone = Ret (CF FNan).
+Proof.
+  exists rx_arr_state. eexists. exists (LPair 2 3). split; [repeat constructor|]. split; [simpl; intuition discriminate|].
+  split; [vm_compute; reflexivity|]. split; reflexivity.
+Qed.
+(* ... and a pair that matches two periods makes the whole call fail *)
+Example rx_arr_tuple_label_KeyError : reindex_M no_pandas no_contains cast_tbl rx_arr_state (SList [LPair 2 5]) 9 PNone None [] 100 = Raise KeyError.
+Proof. vm_compute. reflexivity. Qed.
+
+(* hypotheses of model_reindex_values / pandas_loop_noop are satisfiable *)
+Example rx_model_wf : wf rx_model.
+Proof. repeat constructor. Qed.
+Example rx_model_fill : map (model_fill [("iterations", PInt 0)] (PInt 7)) ["status"; "iterations"; "Y"] = [PStr "-"; PInt 0; PInt 7].
+Proof. vm_compute. reflexivity. Qed.
+(* for a float variable pandas' NaN fill, cast back to float64, is what the core made: the mixin's loop leaves it alone *)
+Example rx_pandas_float_noop :
+  match model_reindex_M no_pandas no_contains cast_tbl rx_pmodel (SRange 2001 1 3) 9 PNone None [] 100 with
+  | Ret r => pandas_loop pd_like_series_reindex np_like_assign_cast rx_pmodel (SRange 2001 1 3) (fun _ => None) [] PNone ["Y"] r = Ret r
+  | Raise _ => False
+  end.
+Proof. vm_compute. reflexivity. Qed.
+
+(* ---------- the mixin tests and applies the fill keywords against `names` only: status / iterations given as keywords are
+   rejected under strict although they are variables of the model, and ignored otherwise ---------- *)
+Theorem pandas_status_keyword_refuted :
+  pandas_reindex_M no_pandas no_contains cast_tbl pd_like_series_reindex np_like_assign_cast
+                   rx_pmodel ["Y"; "I"; "B"; "S"] (SRange 2001 1 3) 9 None PNone (Some true) [("status", PStr "F")] [] [] [] [] [] 100 = Raise KeyError
+  /\ (exists st', pandas_reindex_M no_pandas no_contains cast_tbl pd_like_series_reindex np_like_assign_cast
+                   rx_pmodel ["Y"; "I"; "B"; "S"] (SRange 2001 1 3) 9 None PNone (Some false) [("status", PStr "F")] [] [] [] [] [] 100 = Ret st'
+                  /\ option_map (fun sr => nth 2 (s_data sr) (CV PNone)) (lookup "status" (c_vars st')) = Some (CS "-"))
+  /\ (exists st', model_reindex_M no_pandas no_contains cast_tbl rx_pmodel (SRange 2001 1 3) 9 PNone (Some true) [("status", PStr "F")] 100 = Ret st'
+                  /\ option_map (fun sr => nth 2 (s_data sr) (CV PNone)) (lookup "status" (c_vars st')) = Some (CS "F")).
+Proof.
+  split; [vm_compute; reflexivity|]. split; eexists; (split; [vm_compute; reflexivity | vm_compute; reflexivity]).
+Qed.
